@@ -34,7 +34,7 @@ class FunctionReport:
 _PAR = {}
 
 
-MAX_FAILED_PER_WORKER = 3  # once a function has that many undischarged obligations the rest is not attempted
+MAX_FAILED_PER_WORKER = int(__import__("os").environ.get("PYVC_MAX_FAILED", "3"))  # once a function has that many undischarged obligations the rest is not attempted
 
 
 def _discharge_seq(axioms, items, tier, budget_ms):
